@@ -68,7 +68,10 @@ def run_case(case):
         if tt != rt:
             i = next((i for i, (a, b) in enumerate(zip(tt, rt)) if a != b), min(len(tt), len(rt)))
             kind = "glued" if len(rt) < len(tt) else ("split" if len(rt) > len(tt) else "kind")
-            add("relex", {"kind": kind}, {"fixed": target[:200], "tree": tt[max(0, i - 1) : i + 3], "relex": rt[max(0, i - 1) : i + 3]})
+            pair = ""
+            if kind == "glued" and i + 1 < len(tt) and len(tt[i][0]) + len(tt[i + 1][0]) <= 6:
+                pair = tt[i][0] + "|" + tt[i + 1][0]  # the two fixed-tree tokens that re-lex as one
+            add("relex", {"kind": kind, "glued_pair": pair}, {"fixed": target[:200], "tree": tt[max(0, i - 1) : i + 3], "relex": rt[max(0, i - 1) : i + 3]})
         if fixed != text:
             res["nontrivial"] += 1
             res.setdefault("sample", one)
